@@ -15,8 +15,11 @@ C08 == INSTANCE Mon_C08 WITH MCfg <- P
 C09 == INSTANCE Mon_C09 WITH MCfg <- P
 C17 == INSTANCE Mon_C17 WITH MCfg <- P
 C10 == INSTANCE Mon_C10 WITH MCfg <- P
+C19 == INSTANCE Mon_C19 WITH MCfg <- P
 
+IsObs(tr) == tr # <<>> /\ "obs" \in DOMAIN tr[1]      \* a sequence of idle observations (C19 scaling), not a history
 Verdicts(tr) ==
+  IF IsObs(tr) THEN [C19 |-> C19!ScaleVerdict(tr)] ELSE
   [C06 |-> FoldLeft(C06!Step, C06!Init, tr).viol,
    C07 |-> FoldLeft(C07!Step, C07!Init, tr).viol,
    C11 |-> FoldLeft(C11!Step, C11!Init, tr).viol,
@@ -25,7 +28,8 @@ Verdicts(tr) ==
    C08 |-> FoldLeft(C08!Step, C08!Init, tr).viol,
    C09 |-> FoldLeft(C09!Step, C09!Init, tr).viol,
    C17 |-> FoldLeft(C17!Step, C17!Init, tr).viol,
-   C10 |-> FoldLeft(C10!Step, C10!Init, tr).viol]
+   C10 |-> FoldLeft(C10!Step, C10!Init, tr).viol,
+   C19 |-> FoldLeft(C19!Step, C19!Init, tr).viol]
 
 ASSUME JsonSerialize(IOEnv.OUT, [i \in 1..Len(Traces) |-> Verdicts(Traces[i])])
 
